@@ -58,10 +58,12 @@ def parseOp (ws : List String) : Option Op :=
   | ["newvec", h, c] => do let bs ← parseHex h; let c ← n c; pure (.newVec bs c)
   | ["fromvec", i] => (n i).map .fromVec
   | ["copy", h] => (parseHex h).map .copyFromSlice
+  | ["collect", h] => (parseHex h).map .copyFromSlice          -- FromIterator for Bytes: exact-size Vec, then From<Vec>
   | ["owner", h] => (parseHex h).map fun bs => .fromOwner bs false
   | ["owner", h, "panic"] => (parseHex h).map fun bs => .fromOwner bs true
   | ["mcap", c] => (n c).map .mutWithCapacity
   | ["mfrom", h] => (parseHex h).map .mutFromSlice
+  | ["mcollect", h] => (parseHex h).map .mutFromSlice          -- FromIterator for BytesMut
   | ["mzero", c] => (n c).map .mutZeroed
   | ["clone", i] => (n i).map .clone
   | ["slice", i, lo, hi] => do pure (.slice (← n i) (← n lo) (← n hi))
@@ -69,6 +71,10 @@ def parseOp (ws : List String) : Option Op :=
       let hi ← n hi
       -- `lo..=hi`: end = hi.checked_add(1).expect(..): overflow panics, expressed as an inverted range
       if hi + 1 ≥ W then pure (.slice (← n i) 1 0) else pure (.slice (← n i) (← n lo) (hi + 1))
+  | ["slicex", i, lo, hi] => do
+      let lo ← n lo
+      -- `(Excluded(lo), Excluded(hi))`: begin = lo.checked_add(1).expect("out of range")
+      if lo + 1 ≥ W then pure (.slice (← n i) 1 0) else pure (.slice (← n i) (lo + 1) (← n hi))
   | ["sliceref", i, off, len] => do let o ← n off; let l ← n len; pure (.slice (← n i) o (o + l))
   | ["sliceforeign", i] => (n i).map fun i => .slice i 1 0     -- always rejected: both asserts of slice_ref guard it
   | ["splitoff", i, k] => do pure (.splitOff (← n i) (← n k))
@@ -85,6 +91,9 @@ def parseOp (ws : List String) : Option Op :=
   | ["reserve", i, k] => do pure (.reserve (← n i) (← n k))
   | ["reclaim", i, k] => do pure (.tryReclaim (← n i) (← n k))
   | ["extend", i, h] => do pure (.extend (← n i) (← parseHex h))
+  | ["extendit", i, h] => do pure (.extend (← n i) (← parseHex h))     -- Extend<u8>: reserve(lower bound) + put_u8 each
+  | ["extendref", i, h] => do pure (.extend (← n i) (← parseHex h))    -- Extend<&u8>
+  | ["putslice", i, h] => do pure (.extend (← n i) (← parseHex h))     -- BufMut::put_slice
   | ["resize", i, k, b] => do pure (.resize (← n i) (← n k) (← n b))
   | ["unsplit", i, j] => do pure (.unsplit (← n i) (← n j))
   | ["setbyte", i, k, b] => do pure (.setByte (← n i) (← n k) (← n b))
@@ -198,6 +207,8 @@ structure JS where
   reprs : List String := []
   opsSeen : List String := []
   lastTry : String := ""
+  pack : Bool := false                        -- this script runs under the packing allocator
+  lastOwners : List (Nat × Nat × Nat) := []   -- owner counters of the latest block, kept whether or not the model is in sync
 
 def mix (h : Nat) (s : String) : Nat :=
   s.toUTF8.toList.foldl (fun h x => ((h ^^^ x.toNat) * 0x100000001b3) % 18446744073709551616) h
@@ -270,7 +281,7 @@ def addrOf (o : Obs) : Option (Nat × Nat) := o.blk.map fun (s, off, _) => (s, o
 
 /-- C07 (zero-copy), C04 (reserve / try_reclaim promises), C13 (panic leaves everything intact):
 per-op predicates relating the handles before and after. -/
-def opOracle (op : Op) (out : Outc) (pre post : List Obs) (evs : List Evt) : Option (String × String) :=
+def opOracle (op : Op) (out : Outc) (pre post : List Obs) (evs : List Evt) (pack : Bool := false) : Option (String × String) :=
   let a1alloc := evs.any fun e => e.alloc && e.align == 1 && !e.noise
   let same (i : Nat) : Bool :=
     match findObs pre i, findObs post i with
@@ -290,7 +301,8 @@ def opOracle (op : Op) (out : Outc) (pre post : List Obs) (evs : List Evt) : Opt
         if a1alloc then some ("C07", "a byte buffer was allocated by a sharing operation")
         -- an empty source only has a meaningful address when it owns storage (capacity, or reported unique):
         -- empty non-owning handles carry stale pointers that may coincide with unrelated live blocks
-        else if (b.len > 0 || (checkEmpty && (a.len > 0 || (a.cap.getD 0) > 0 || a.uniq == some true))) && a.blk.isSome then
+        -- (with the packing allocator an address on a block boundary belongs to two blocks: empty results are not located there)
+        else if (b.len > 0 || (checkEmpty && !pack && (a.len > 0 || (a.cap.getD 0) > 0 || a.uniq == some true))) && a.blk.isSome then
           (match addrOf a, addrOf b with
            | some (s, o), some (s', o') => if s == s' && o' == o + delta then none else some ("C07", s!"result handle {res} does not start at the source address + {delta}")
            | _, _ => some ("C07", s!"result handle {res} has no address"))
@@ -405,7 +417,7 @@ def judgeBlock (s : JS) : IO JS := do
   match frameOracle op s.prev b.obs with
   | some (p, msg) => emit s true s!"oracle-fail {p} op={opw.headD "?"} what={msg.replace " " "_"}"
   | none =>
-  match opOracle op out s.prev b.obs b.evs with
+  match opOracle op out s.prev b.obs b.evs s.pack with
   | some (p, msg) => emit s true s!"oracle-fail {p} op={opw.headD "?"} what={msg.replace " " "_"}"
   | none =>
   -- C03: owners
@@ -464,11 +476,11 @@ def judgeBlock (s : JS) : IO JS := do
           return { s with model := some m', spec := spec', prev := b.obs, prevOwners := b.owners, digest := dg,
                           knownSerials := known, reprs := (rs.filter fun r => !s.reprs.contains r).eraseDups ++ s.reprs }
 
-def step (s : JS) (line : String) : IO JS := do
+partial def step (s : JS) (line : String) : IO JS := do
   match words line with
   | "script" :: ws =>
     let rel := ws.contains "profile=release"
-    return { s with model := some {}, spec := [], prev := [], prevOwners := [], script := [], cur := {}, inBlk := false,
+    return { s with model := some {}, spec := [], prev := [], prevOwners := [], lastOwners := [], pack := ws.contains "parity=pack", script := [], cur := {}, inBlk := false,
                     knownSerials := [], cfg := ⟨!rel, !rel⟩, nscripts := s.nscripts + 1 }
   | "try" :: ws => return { s with lastTry := String.intercalate " " ws }
   | "op" :: rest =>
@@ -487,14 +499,18 @@ def step (s : JS) (line : String) : IO JS := do
     match o.toNat?, (a.drop 6).toString.toNat?, (d.drop 8).toString.toNat? with
     | some o, some a, some d => return { s with cur := { s.cur with owners := s.cur.owners ++ [(o, a, d)] } }
     | _, _, _ => return s
-  | ["end"] => judgeBlock s
+  | ["end"] => judgeBlock { s with lastOwners := s.cur.owners }
+  | ["balance", delta, ctl, viol] =>
+    let s ← if ctl != "ctl_live_delta=0" then emit s true s!"oracle-fail C03 op=end what=control_blocks_still_allocated_after_every_handle_was_dropped_({ctl})" else pure s
+    step s (String.intercalate " " ["balance", delta, viol])
   | ["balance", delta, viol] =>
     -- allocator-level end-of-script facts are judged whether or not the model is still in sync
     let inSync := s.model.isSome
     let s ← if delta != "align1_live_delta=0" then emit s true s!"oracle-fail C03 op=end what=byte_buffers_still_allocated_after_every_handle_was_dropped_({delta})" else pure s
     let s ← if viol != "violations=0" then emit s true s!"oracle-fail C02 op=end what=allocator_violations_({viol})" else pure s
-    let s ← match s.prevOwners.find? fun (_, a, d) => a != 1 || d != 1 with
-      | some (o, a, d) => if inSync then emit s true s!"oracle-fail C03 op=end what=owner_{o}_asref={a}_dropped={d}_at_the_end" else pure s
+    let _ := inSync
+    let s ← match s.lastOwners.find? fun (_, a, d) => a != 1 || d != 1 with
+      | some (o, a, d) => emit s true s!"oracle-fail C03 op=end what=owner_{o}_asref={a}_dropped={d}_at_the_end_(every_handle_is_gone)"
       | none => pure s
     match s.model with
     | none => return { s with digest := 0xcbf29ce484222325 }
